@@ -348,6 +348,7 @@ def fn_remember_Middleware : String := "func(ab *authboss.Authboss) func(http.Ha
 def fn_remember_Authenticate : String := "func(ab *authboss.Authboss, w http.ResponseWriter, req **http.Request) error { cookie, ok := authboss.GetCookie(*req, authboss.CookieRemember) if !ok { return nil } rawToken, err := base64.URLEncoding.DecodeString(cookie) if err != nil { authboss.DelCookie(w, authboss.CookieRemember) return nil } index := len(rawToken) - nNonceSize - 1 if index < 0 || rawToken[index] != ';' { authboss.DelCookie(w, authboss.CookieRemember) return nil } pid := string(rawToken[:index]) sum := sha512.Sum512(rawToken) hash := base64.StdEncoding.EncodeToString(sum[:]) storer := authboss.EnsureCanRemember(ab.Config.Storage.Server) err = storer.UseRememberToken((*req).Context(), pid, hash) switch { case err == authboss.ErrTokenNotFound: authboss.DelCookie(w, authboss.CookieRemember) return nil case err != nil: return err } hash, token, err := GenerateToken(pid) if err != nil { return err } if err = storer.AddRememberToken((*req).Context(), pid, hash); err != nil { return errors.Wrap(err, \"failed to save remember me token\") } ctx := context.WithValue((*req).Context(), authboss.CTXKeyPID, pid) state, _ := ctx.Value(authboss.CTXKeySessionState).(authboss.ClientState) ctx = context.WithValue(ctx, authboss.CTXKeySessionState, halfAuthState{cs: state}) *req = (*req).WithContext(ctx) authboss.PutSession(w, authboss.SessionKey, pid) authboss.PutSession(w, authboss.SessionHalfAuthKey, \"true\") authboss.DelCookie(w, authboss.CookieRemember) authboss.PutCookie(w, authboss.CookieRemember, token) return nil }"
 def fn_remember_Remember_AfterPasswordReset : String := "func(w http.ResponseWriter, req *http.Request, handled bool) (bool, error) { user, err := r.Authboss.CurrentUser(req) if err != nil { return false, err } storer := authboss.EnsureCanRemember(r.Authboss.Config.Storage.Server) pid := user.GetPID() authboss.DelCookie(w, authboss.CookieRemember) return false, storer.DelRememberTokens(req.Context(), pid) }"
 def fn_remember_GenerateToken : String := "func(pid string) (hash string, token string, err error) { rawToken := make([]byte, nNonceSize+len(pid)+1) copy(rawToken, pid) rawToken[len(pid)] = ';' if _, err := io.ReadFull(rand.Reader, rawToken[len(pid)+1:]); err != nil { return \"\", \"\", errors.Wrap(err, \"failed to create remember me nonce\") } sum := sha512.Sum512(rawToken) return base64.StdEncoding.EncodeToString(sum[:]), base64.URLEncoding.EncodeToString(rawToken), nil }"
+def fn_remember_halfAuthState_Get : String := "func(key string) (string, bool) { if key == authboss.SessionHalfAuthKey { return \"true\", true } if h.cs == nil { return \"\", false } return h.cs.Get(key) }"
 def consts_remember : List (String × String) := [
   ("remember.nNonceSize", "32")
 ]
@@ -649,6 +650,417 @@ def pkgVars_defaults : List (String × String) := [
   ("defaults.blankRegex", "regexp.MustCompile(`^\\s*$`)"),
   ("defaults.randMu", ":sync.Mutex"),
   ("defaults.emailTmpl", "template.Must(template.New(\"email\").Funcs(template.FuncMap{ \"join\": strings.Join, \"namedAddress\": namedAddress, \"namedAddresses\": namedAddresses, }).Parse(`To: {{namedAddresses .Mail.ToNames .Mail.To}}{{if .Mail.Cc}} Cc: {{namedAddresses .Mail.CcNames .Mail.Cc}}{{end}}{{if .Mail.Bcc}} Bcc: {{namedAddresses .Mail.BccNames .Mail.Bcc}}{{end}} From: {{namedAddress .Mail.FromName .Mail.From}} Subject: {{.Mail.Subject}}{{if .Mail.ReplyTo}} Reply-To: {{namedAddress .Mail.ReplyToName .Mail.ReplyTo}}{{end}} MIME-Version: 1.0 Content-Type: multipart/alternative; boundary=\"==============={{.Boundary}}==\" Content-Transfer-Encoding: 7bit {{if .Mail.TextBody -}} --==============={{.Boundary}}== Content-Type: text/plain; charset=UTF-8 Content-Transfer-Encoding: 7bit {{.Mail.TextBody}} {{end -}} {{if .Mail.HTMLBody -}} --==============={{.Boundary}}== Content-Type: text/html; charset=UTF-8 Content-Transfer-Encoding: 7bit {{.Mail.HTMLBody}} {{end -}} --==============={{.Boundary}}==-- `))")
+]
+def fn_auth_Auth_LoginGet : String := "func(w http.ResponseWriter, r *http.Request) error { data := authboss.HTMLData{} if redir := r.URL.Query().Get(authboss.FormValueRedirect); len(redir) != 0 { data[authboss.FormValueRedirect] = redir } return a.Core.Responder.Respond(w, r, http.StatusOK, PageLogin, data) }"
+def fn_auth_init : String := "func() { authboss.RegisterModule(\"auth\", &Auth{}) }"
+def fn_authboss_Authboss_CurrentUserIDP : String := "func(r *http.Request) string { i, err := a.CurrentUserID(r) if err != nil { panic(err) } else if len(i) == 0 { panic(ErrUserNotFound) } return i }"
+def fn_authboss_Authboss_IsLoaded : String := "func(mod string) bool { _, ok := a.loadedModules[mod] return ok }"
+def fn_authboss_Authboss_LoadClientStateMiddleware : String := "func(h http.Handler) http.Handler { return http.HandlerFunc(func(w http.ResponseWriter, r *http.Request) { writer := a.NewResponse(w) request, err := a.LoadClientState(writer, r) if err != nil { w.WriteHeader(http.StatusInternalServerError) return } h.ServeHTTP(writer, request) }) }"
+def fn_authboss_Authboss_LoadCurrentUserIDP : String := "func(r **http.Request) string { pid, err := a.LoadCurrentUserID(r) if err != nil { panic(err) } else if len(pid) == 0 { panic(ErrUserNotFound) } return pid }"
+def fn_authboss_Authboss_LoadedModules : String := "func() []string { mods := make([]string, len(a.loadedModules)) i := 0 for k := range a.loadedModules { mods[i] = k i++ } return mods }"
+def fn_authboss_Authboss_Localizef : String := "func(ctx context.Context, key LocalizationKey, args ...any) string { if a.Config.Core.Localizer == nil { return fmt.Sprintf(key.Default, args...) } if translated := a.Config.Core.Localizer.Localizef(ctx, key, args...); translated != \"\" { return translated } return fmt.Sprintf(key.Default, args...) }"
+def fn_authboss_Authboss_Logger : String := "func(ctx context.Context) FmtLogger { logger := a.Config.Core.Logger if ctx == nil { return FmtLogger{logger} } ctxLogger, ok := logger.(ContextLogger) if !ok { return FmtLogger{logger} } return FmtLogger{ctxLogger.FromContext(ctx)} }"
+def fn_authboss_Authboss_RequestLogger : String := "func(r *http.Request) FmtLogger { logger := a.Config.Core.Logger if reqLogger, ok := logger.(RequestLogger); ok { return FmtLogger{reqLogger.FromRequest(r)} } return FmtLogger{a.Logger(r.Context())} }"
+def fn_authboss_CanBeRecoverableUserWithSecondaryEmails : String := "func(u User) (RecoverableUserWithSecondaryEmails, bool) { if lu, ok := u.(RecoverableUserWithSecondaryEmails); ok { return lu, true } return nil, false }"
+def fn_authboss_ClientStateResponseWriter_Header : String := "func() http.Header { return c.ResponseWriter.Header() }"
+def fn_authboss_ClientStateResponseWriter_Hijack : String := "func() (net.Conn, *bufio.ReadWriter, error) { h, ok := c.ResponseWriter.(http.Hijacker) if ok { return h.Hijack() } return nil, nil, errors.New(\"authboss: underlying ResponseWriter does not support hijacking\") }"
+def fn_authboss_Config_Defaults : String := "func() { c.Paths.Mount = \"/auth\" c.Paths.NotAuthorized = \"/\" c.Paths.AuthLoginOK = \"/\" c.Paths.ConfirmOK = \"/\" c.Paths.ConfirmNotOK = \"/\" c.Paths.LockNotOK = \"/\" c.Paths.LogoutOK = \"/\" c.Paths.OAuth2LoginOK = \"/\" c.Paths.OAuth2LoginNotOK = \"/\" c.Paths.RecoverOK = \"/\" c.Paths.RegisterOK = \"/\" c.Paths.RootURL = \"http://localhost:8080\" c.Paths.TwoFactorEmailAuthNotOK = \"/\" c.Modules.BCryptCost = bcrypt.DefaultCost c.Modules.ConfirmMethod = http.MethodGet c.Modules.ExpireAfter = time.Hour c.Modules.LockAfter = 3 c.Modules.LockWindow = 5 * time.Minute c.Modules.LockDuration = 12 * time.Hour c.Modules.LogoutMethod = \"DELETE\" c.Modules.MailRouteMethod = http.MethodGet c.Modules.RecoverLoginAfterRecovery = false c.Modules.RecoverTokenDuration = 24 * time.Hour c.Core.OneTimeTokenGenerator = NewSha512TokenGenerator() }"
+def fn_authboss_EnsureCanConfirm : String := "func(storer ServerStorer) ConfirmingServerStorer { s, ok := storer.(ConfirmingServerStorer) if !ok { panic(\"could not upgrade ServerStorer to ConfirmingServerStorer, check your struct\") } return s }"
+def fn_authboss_EnsureCanCreate : String := "func(storer ServerStorer) CreatingServerStorer { s, ok := storer.(CreatingServerStorer) if !ok { panic(\"could not upgrade ServerStorer to CreatingServerStorer, check your struct\") } return s }"
+def fn_authboss_EnsureCanOAuth2 : String := "func(storer ServerStorer) OAuth2ServerStorer { s, ok := storer.(OAuth2ServerStorer) if !ok { panic(\"could not upgrade ServerStorer to OAuth2ServerStorer, check your struct\") } return s }"
+def fn_authboss_EnsureCanRecover : String := "func(storer ServerStorer) RecoveringServerStorer { s, ok := storer.(RecoveringServerStorer) if !ok { panic(\"could not upgrade ServerStorer to RecoveringServerStorer, check your struct\") } return s }"
+def fn_authboss_EnsureCanRemember : String := "func(storer ServerStorer) RememberingServerStorer { s, ok := storer.(RememberingServerStorer) if !ok { panic(\"could not upgrade ServerStorer to RememberingServerStorer, check your struct\") } return s }"
+def fn_authboss_ErrorList_Error : String := "func() string { b := &bytes.Buffer{} first := true for _, err := range e { if first { first = false } else { b.WriteString(\", \") } b.WriteString(err.Error()) } return b.String() }"
+def fn_authboss_ErrorList_Map : String := "func() map[string][]string { m := make(map[string][]string) for _, err := range e { fieldErr, ok := err.(FieldError) if !ok { m[\"\"] = append(m[\"\"], err.Error()) } else { name, err := fieldErr.Name(), fieldErr.Err() m[name] = append(m[name], err.Error()) } } return m }"
+def fn_authboss_ErrorMap : String := "func(e []error) map[string][]string { return ErrorList(e).Map() }"
+def fn_authboss_Event_String : String := "func() string { if i < 0 || i >= Event(len(_Event_index)-1) { return \"Event(\" + strconv.FormatInt(int64(i), 10) + \")\" } return _Event_name[_Event_index[i]:_Event_index[i+1]] }"
+def fn_authboss_FlashError : String := "func(w http.ResponseWriter, r *http.Request) string { str, ok := GetSession(r, FlashErrorKey) if !ok { return \"\" } DelSession(w, FlashErrorKey) return str }"
+def fn_authboss_FlashSuccess : String := "func(w http.ResponseWriter, r *http.Request) string { str, ok := GetSession(r, FlashSuccessKey) if !ok { return \"\" } DelSession(w, FlashSuccessKey) return str }"
+def fn_authboss_FmtLogger_Errorf : String := "func(format string, values ...interface{}) { }"
+def fn_authboss_FmtLogger_Infof : String := "func(format string, values ...interface{}) { }"
+def fn_authboss_HTMLData_Merge : String := "func(other HTMLData) HTMLData { for k, v := range other { h[k] = v } return h }"
+def fn_authboss_HTMLData_MergeKV : String := "func(data ...interface{}) HTMLData { if len(data)%2 != 0 { panic(\"It should be a key value list of arguments.\") } for i := 0; i < len(data)-1; i += 2 { k, ok := data[i].(string) if !ok { panic(\"Keys must be strings.\") } h[k] = data[i+1] } return h }"
+def fn_authboss_MergeDataInRequest : String := "func(r **http.Request, other HTMLData) { ctx := (*r).Context() currentIntf := ctx.Value(CTXKeyData) if currentIntf == nil { *r = (*r).WithContext(context.WithValue(ctx, CTXKeyData, other)) return } current := currentIntf.(HTMLData) merged := current.Merge(other) *r = (*r).WithContext(context.WithValue(ctx, CTXKeyData, merged)) }"
+def fn_authboss_ModuleListMiddleware : String := "func(ab *Authboss) func(http.Handler) http.Handler { return func(next http.Handler) http.Handler { return http.HandlerFunc(func(w http.ResponseWriter, r *http.Request) { var data HTMLData ctx := r.Context() dataIntf := ctx.Value(CTXKeyData) if dataIntf != nil { data = dataIntf.(HTMLData) } else { data = HTMLData{} } loaded := make(map[string]bool, len(ab.loadedModules)) for k := range ab.loadedModules { loaded[k] = true } for provider := range ab.Config.Modules.OAuth2Providers { loaded[\"oauth2.\"+provider] = true } data[DataModules] = loaded r = r.WithContext(context.WithValue(ctx, CTXKeyData, data)) next.ServeHTTP(w, r) }) } }"
+def fn_authboss_MustBeAuthable : String := "func(u User) AuthableUser { if au, ok := u.(AuthableUser); ok { return au } panic(fmt.Sprintf(\"could not upgrade user to an authable user, type: %T\", u)) }"
+def fn_authboss_MustBeConfirmable : String := "func(u User) ConfirmableUser { if cu, ok := u.(ConfirmableUser); ok { return cu } panic(fmt.Sprintf(\"could not upgrade user to a confirmable user, type: %T\", u)) }"
+def fn_authboss_MustBeLockable : String := "func(u User) LockableUser { if lu, ok := u.(LockableUser); ok { return lu } panic(fmt.Sprintf(\"could not upgrade user to a lockable user, given type: %T\", u)) }"
+def fn_authboss_MustBeOAuthable : String := "func(u User) OAuth2User { if ou, ok := u.(OAuth2User); ok { return ou } panic(fmt.Sprintf(\"could not upgrade user to an oauthable user, given type: %T\", u)) }"
+def fn_authboss_MustBeRecoverable : String := "func(u User) RecoverableUser { if lu, ok := u.(RecoverableUser); ok { return lu } panic(fmt.Sprintf(\"could not upgrade user to a recoverable user, given type: %T\", u)) }"
+def fn_authboss_MustHaveConfirmValues : String := "func(v Validator) ConfirmValuer { if u, ok := v.(ConfirmValuer); ok { return u } panic(fmt.Sprintf(\"bodyreader returned a type that could not be upgraded to ConfirmValuer: %T\", v)) }"
+def fn_authboss_MustHaveRecoverEndValues : String := "func(v Validator) RecoverEndValuer { if u, ok := v.(RecoverEndValuer); ok { return u } panic(fmt.Sprintf(\"bodyreader returned a type that could not be upgraded to RecoverEndValuer: %T\", v)) }"
+def fn_authboss_MustHaveRecoverMiddleValues : String := "func(v Validator) RecoverMiddleValuer { if u, ok := v.(RecoverMiddleValuer); ok { return u } panic(fmt.Sprintf(\"bodyreader returned a type that could not be upgraded to RecoverMiddleValuer: %T\", v)) }"
+def fn_authboss_MustHaveRecoverStartValues : String := "func(v Validator) RecoverStartValuer { if u, ok := v.(RecoverStartValuer); ok { return u } panic(fmt.Sprintf(\"bodyreader returned a type that could not be upgraded to RecoverStartValuer: %T\", v)) }"
+def fn_authboss_MustHaveUserValues : String := "func(v Validator) UserValuer { if u, ok := v.(UserValuer); ok { return u } panic(fmt.Sprintf(\"bodyreader returned a type that could not be upgraded to UserValuer: %T\", v)) }"
+def fn_authboss_NewBCryptHasher : String := "func(cost int) *bcryptHasher { return &bcryptHasher{cost: cost} }"
+def fn_authboss_NewHTMLData : String := "func(data ...interface{}) HTMLData { if len(data)%2 != 0 { panic(\"it should be a key value list of arguments.\") } h := make(HTMLData) for i := 0; i < len(data)-1; i += 2 { k, ok := data[i].(string) if !ok { panic(\"Keys must be strings.\") } h[k] = data[i+1] } return h }"
+def fn_authboss_NewSha512TokenGenerator : String := "func() *Sha512TokenGenerator { return &Sha512TokenGenerator{} }"
+def fn_authboss_ParseOAuth2PIDP : String := "func(pid string) (provider, uid string) { var err error provider, uid, err = ParseOAuth2PID(pid) if err != nil { panic(err) } return provider, uid }"
+def fn_authboss_RegisteredModules : String := "func() []string { mods := make([]string, len(registeredModules)) i := 0 for k := range registeredModules { mods[i] = k i++ } return mods }"
+def fn_authboss_VerifyPassword : String := "func(user AuthableUser, password string) error { return bcrypt.CompareHashAndPassword([]byte(user.GetPassword()), []byte(password)) }"
+def fn_authboss__ : String := "func() { // An \"invalid array index\" compiler error signifies that the constant values have changed. // Re-run the stringer command to generate them again. var x [1]struct{} _ = x[EventRegister-0] _ = x[EventAuth-1] _ = x[EventAuthHijack-2] _ = x[EventOAuth2-3] _ = x[EventAuthFail-4] _ = x[EventOAuth2Fail-5] _ = x[EventRecoverStart-6] _ = x[EventRecoverEnd-7] _ = x[EventGetUser-8] _ = x[EventGetUserSession-9] _ = x[EventPasswordReset-10] _ = x[EventLogout-11] _ = x[EventTwoFactorAdded-12] _ = x[EventTwoFactorRemoved-13] }"
+def fn_authboss_contextKey_String : String := "func() string { return \"authboss ctx key \" + string(c) }"
+def fn_confirm_Confirm_mailURL : String := "func(token string) string { query := url.Values{FormValueConfirm: []string{token}} if len(c.Config.Mail.RootURL) != 0 { return fmt.Sprintf(\"%s?%s\", c.Config.Mail.RootURL+\"/confirm\", query.Encode()) } p := path.Join(c.Config.Paths.Mount, \"confirm\") return fmt.Sprintf(\"%s%s?%s\", c.Config.Paths.RootURL, p, query.Encode()) }"
+def fn_confirm_GenerateConfirmCreds : String := "func() (selector, verifier, token string, err error) { confirmTokenSize := 64 confirmTokenSplit := confirmTokenSize / 2 rawToken := make([]byte, confirmTokenSize) if _, err = io.ReadFull(rand.Reader, rawToken); err != nil { return \"\", \"\", \"\", err } selectorBytes := sha512.Sum512(rawToken[:confirmTokenSplit]) verifierBytes := sha512.Sum512(rawToken[confirmTokenSplit:]) return base64.StdEncoding.EncodeToString(selectorBytes[:]), base64.StdEncoding.EncodeToString(verifierBytes[:]), base64.URLEncoding.EncodeToString(rawToken), nil }"
+def fn_confirm_init : String := "func() { authboss.RegisterModule(\"confirm\", &Confirm{}) }"
+def fn_defaults_ConfirmValues_GetToken : String := "func() string { return c.Token }"
+def fn_defaults_FieldError_Err : String := "func() error { return f.FieldErr }"
+def fn_defaults_FieldError_Error : String := "func() string { return fmt.Sprintf(\"%s: %v\", f.FieldName, f.FieldErr) }"
+def fn_defaults_FieldError_Name : String := "func() string { return f.FieldName }"
+def fn_defaults_JSONRenderer_Load : String := "func(names ...string) error { return nil }"
+def fn_defaults_NewErrorHandler : String := "func(logger authboss.Logger) ErrorHandler { return ErrorHandler{LogWriter: logger} }"
+def fn_defaults_NewFieldError : String := "func(name string, err error) FieldError { return FieldError{FieldName: name, FieldErr: err} }"
+def fn_defaults_NewLogMailer : String := "func(writer io.Writer) *LogMailer { return &LogMailer{writer} }"
+def fn_defaults_NewLogger : String := "func(writer io.Writer) Logger { return Logger{Writer: writer} }"
+def fn_defaults_NewRedirector : String := "func(renderer authboss.Renderer, formValueName string) *Redirector { return &Redirector{FormValueName: formValueName, Renderer: renderer} }"
+def fn_defaults_NewResponder : String := "func(renderer authboss.Renderer) *Responder { return &Responder{Renderer: renderer} }"
+def fn_defaults_NewRouter : String := "func() *Router { r := &Router{ gets: http.NewServeMux(), posts: http.NewServeMux(), deletes: http.NewServeMux(), } r.gets.Handle(\"/\", http.NotFoundHandler()) r.posts.Handle(\"/\", http.NotFoundHandler()) r.deletes.Handle(\"/\", http.NotFoundHandler()) return r }"
+def fn_defaults_RecoverEndValues_GetPassword : String := "func() string { return r.NewPassword }"
+def fn_defaults_RecoverEndValues_GetToken : String := "func() string { return r.Token }"
+def fn_defaults_RecoverMiddleValues_GetToken : String := "func() string { return r.Token }"
+def fn_defaults_RecoverStartValues_GetPID : String := "func() string { return r.PID }"
+def fn_defaults_Router_Delete : String := "func(path string, handler http.Handler) { r.deletes.Handle(path, handler) }"
+def fn_defaults_Router_Get : String := "func(path string, handler http.Handler) { r.gets.Handle(path, handler) }"
+def fn_defaults_Router_Post : String := "func(path string, handler http.Handler) { r.posts.Handle(path, handler) }"
+def fn_defaults_Rules_Rules : String := "func() []string { var rules []string if r.MustMatch != nil { rules = append(rules, r.MatchError) } if e := r.lengthErr(); len(e) > 0 { rules = append(rules, e) } if e := r.charErr(); len(e) > 0 { rules = append(rules, e) } if e := r.upperErr(); len(e) > 0 { rules = append(rules, e) } if e := r.lowerErr(); len(e) > 0 { rules = append(rules, e) } if e := r.numericErr(); len(e) > 0 { rules = append(rules, e) } if e := r.symbolErr(); len(e) > 0 { rules = append(rules, e) } return rules }"
+def fn_defaults_Rules_charErr : String := "func() (err string) { if r.MinLetters > 0 { err = fmt.Sprintf(\"Must contain at least %d letter\", r.MinLetters) if r.MinLetters > 1 { err += \"s\" } } return err }"
+def fn_defaults_Rules_lengthErr : String := "func() (err string) { switch { case r.MinLength > 0 && r.MaxLength > 0: err = fmt.Sprintf(\"Must be between %d and %d characters\", r.MinLength, r.MaxLength) case r.MinLength > 0: err = fmt.Sprintf(\"Must be at least %d character\", r.MinLength) if r.MinLength > 1 { err += \"s\" } case r.MaxLength > 0: err = fmt.Sprintf(\"Must be at most %d character\", r.MaxLength) if r.MaxLength > 1 { err += \"s\" } } return err }"
+def fn_defaults_Rules_lowerErr : String := "func() (err string) { if r.MinLower > 0 { err = fmt.Sprintf(\"Must contain at least %d lowercase letter\", r.MinLower) if r.MinLower > 1 { err += \"s\" } } return err }"
+def fn_defaults_Rules_numericErr : String := "func() (err string) { if r.MinNumeric > 0 { err = fmt.Sprintf(\"Must contain at least %d number\", r.MinNumeric) if r.MinNumeric > 1 { err += \"s\" } } return err }"
+def fn_defaults_Rules_symbolErr : String := "func() (err string) { if r.MinSymbols > 0 { err = fmt.Sprintf(\"Must contain at least %d symbol\", r.MinSymbols) if r.MinSymbols > 1 { err += \"s\" } } return err }"
+def fn_defaults_Rules_upperErr : String := "func() (err string) { if r.MinUpper > 0 { err = fmt.Sprintf(\"Must contain at least %d uppercase letter\", r.MinUpper) if r.MinUpper > 1 { err += \"s\" } } return err }"
+def fn_defaults_SMSTwoFA_GetCode : String := "func() string { return s.Code }"
+def fn_defaults_SMSTwoFA_GetPhoneNumber : String := "func() string { return s.PhoneNumber }"
+def fn_defaults_SMSTwoFA_GetRecoveryCode : String := "func() string { return s.RecoveryCode }"
+def fn_defaults_TwoFA_GetCode : String := "func() string { return t.Code }"
+def fn_defaults_TwoFA_GetRecoveryCode : String := "func() string { return t.RecoveryCode }"
+def fn_defaults_UserValues_GetPID : String := "func() string { return u.PID }"
+def fn_defaults_UserValues_GetPassword : String := "func() string { return u.Password }"
+def fn_defaults_UserValues_GetValues : String := "func() map[string]string { return u.Arbitrary }"
+def fn_defaults_isSameSiteRedirect : String := "func(redir string) bool { if len(redir) == 0 || redir[0] != '/' { return false } if len(redir) > 1 && (redir[1] == '/' || redir[1] == '\\\\') { return false } for i := 0; i < len(redir); i++ { if c := redir[i]; c <= 0x20 || c == 0x7f || c == '\\\\' { return false } } return !strings.Contains(redir, \"://\") }"
+def fn_defaults_namedAddress : String := "func(name, address string) string { if len(name) == 0 { return address } return fmt.Sprintf(\"%s <%s>\", name, address) }"
+def fn_defaults_namedAddresses : String := "func(names, addresses []string) string { if len(names) == 0 { return strings.Join(addresses, \", \") } buf := &bytes.Buffer{} first := true for i, address := range addresses { if first { first = false } else { buf.WriteString(\", \") } buf.WriteString(namedAddress(names[i], address)) } return buf.String() }"
+def fn_expire_RefreshExpiry : String := "func(w http.ResponseWriter, r *http.Request) { refreshExpiry(w) }"
+def fn_expire_TimeToExpiry : String := "func(r *http.Request, expireAfter time.Duration) time.Duration { return timeToExpiry(r, expireAfter) }"
+def fn_lock_init : String := "func() { authboss.RegisterModule(\"lock\", &Lock{}) }"
+def fn_logout_init : String := "func() { authboss.RegisterModule(\"logout\", &Logout{}) }"
+def fn_oauth2_FacebookUserDetails : String := "func(ctx context.Context, cfg oauth2.Config, token *oauth2.Token) (map[string]string, error) { client := cfg.Client(ctx, token) resp, err := clientGet(client, facebookInfoEndpoint) if err != nil { return nil, err } defer resp.Body.Close() byt, err := io.ReadAll(resp.Body) if err != nil { return nil, errors.Wrap(err, \"failed to read body from facebook oauth2 endpoint\") } var response facebookMeResponse if err = json.Unmarshal(byt, &response); err != nil { return nil, errors.Wrap(err, \"failed to parse json from facebook oauth2 endpoint\") } return map[string]string{ OAuth2UID: response.ID, OAuth2Email: response.Email, OAuth2Name: response.Name, }, nil }"
+def fn_oauth2_GoogleUserDetails : String := "func(ctx context.Context, cfg oauth2.Config, token *oauth2.Token) (map[string]string, error) { client := cfg.Client(ctx, token) resp, err := clientGet(client, googleInfoEndpoint) if err != nil { return nil, err } defer resp.Body.Close() byt, err := io.ReadAll(resp.Body) if err != nil { return nil, errors.Wrap(err, \"failed to read body from google oauth2 endpoint\") } var response googleMeResponse if err = json.Unmarshal(byt, &response); err != nil { return nil, err } return map[string]string{ OAuth2UID: response.ID, OAuth2Email: response.Email, }, nil }"
+def fn_oauth2_init : String := "func() { authboss.RegisterModule(\"oauth2\", &OAuth2{}) }"
+def fn_oauth2_isSameSiteRedirect : String := "func(redir string) bool { if len(redir) == 0 || redir[0] != '/' { return false } if len(redir) > 1 && (redir[1] == '/' || redir[1] == '\\\\') { return false } for i := 0; i < len(redir); i++ { if c := redir[i]; c <= 0x20 || c == 0x7f || c == '\\\\' { return false } } return !strings.Contains(redir, \"://\") }"
+def fn_otp_MustBeOTPable : String := "func(user authboss.User) User { u, ok := user.(User) if !ok { panic(fmt.Sprintf(\"could not upgrade user to an otpable user, type: %T\", u)) } return u }"
+def fn_otp_OTP_AddGet : String := "func(w http.ResponseWriter, r *http.Request) error { return o.showOTPCount(w, r, PageAdd) }"
+def fn_otp_OTP_ClearGet : String := "func(w http.ResponseWriter, r *http.Request) error { return o.showOTPCount(w, r, PageClear) }"
+def fn_otp_OTP_LoginGet : String := "func(w http.ResponseWriter, r *http.Request) error { var data authboss.HTMLData if redir := r.URL.Query().Get(authboss.FormValueRedirect); len(redir) != 0 { data = authboss.HTMLData{authboss.FormValueRedirect: redir} } return o.Core.Responder.Respond(w, r, http.StatusOK, PageLogin, data) }"
+def fn_otp_OTP_showOTPCount : String := "func(w http.ResponseWriter, r *http.Request, page string) error { user, err := o.Authboss.CurrentUser(r) if err != nil { return err } otpUser := MustBeOTPable(user) ln := strconv.Itoa(len(splitOTPs(otpUser.GetOTPs()))) return o.Core.Responder.Respond(w, r, http.StatusOK, page, authboss.HTMLData{DataNumberOTPs: ln}) }"
+def fn_otp_init : String := "func() { authboss.RegisterModule(\"otp\", &OTP{}) }"
+def fn_otp_twofactor_EmailVerify_GetStart : String := "func(w http.ResponseWriter, r *http.Request) error { cu, err := e.Authboss.CurrentUser(r) if err != nil { return err } user := cu.(User) data := authboss.HTMLData{ DataVerifyEmail: user.GetEmail(), DataVerifyURL: path.Join(e.Authboss.Paths.Mount, \"2fa\", e.TwofactorKind, \"email/verify\"), } return e.Authboss.Core.Responder.Respond(w, r, http.StatusOK, PageVerify2FA, data) }"
+def fn_otp_twofactor_EmailVerify_mailURL : String := "func(token string) string { query := url.Values{FormValueToken: []string{token}} if len(e.Config.Mail.RootURL) != 0 { return fmt.Sprintf(\"%s?%s\", e.Config.Mail.RootURL+\"/2fa/\"+e.TwofactorKind+\"/email/verify/end\", query.Encode()) } p := path.Join(e.Config.Paths.Mount, \"/2fa/\"+e.TwofactorKind+\"/email/verify/end\") return fmt.Sprintf(\"%s%s?%s\", e.Config.Paths.RootURL, p, query.Encode()) }"
+def fn_otp_twofactor_MustHaveEmailVerifyTokenValues : String := "func(v authboss.Validator) EmailVerifyTokenValuer { if u, ok := v.(EmailVerifyTokenValuer); ok { return u } panic(fmt.Sprintf(\"bodyreader returned a type that could not be upgraded to an EmailVerifyTokenValues: %T\", v)) }"
+def fn_otp_twofactor_Recovery_GetRegen : String := "func(w http.ResponseWriter, r *http.Request) error { abUser, err := rc.CurrentUser(r) if err != nil { return err } user := abUser.(User) var nCodes int codes := user.GetRecoveryCodes() if len(codes) != 0 { nCodes++ } for _, c := range codes { if c == ',' { nCodes++ } } data := authboss.HTMLData{DataNumRecoveryCodes: nCodes} return rc.Authboss.Core.Responder.Respond(w, r, http.StatusOK, PageRecovery2FA, data) }"
+def fn_otp_twofactor_sms2fa_MustHaveSMSPhoneNumberValue : String := "func(v authboss.Validator) SMSPhoneNumberValuer { if u, ok := v.(SMSPhoneNumberValuer); ok { return u } panic(fmt.Sprintf(\"bodyreader returned a type that could not be upgraded to SMSValuer: %T\", v)) }"
+def fn_otp_twofactor_sms2fa_MustHaveSMSValues : String := "func(v authboss.Validator) SMSValuer { if u, ok := v.(SMSValuer); ok { return u } panic(fmt.Sprintf(\"bodyreader returned a type that could not be upgraded to SMSValuer: %T\", v)) }"
+def fn_otp_twofactor_sms2fa_SMSValidator_Get : String := "func(w http.ResponseWriter, r *http.Request) error { return s.Core.Responder.Respond(w, r, http.StatusOK, s.Page, nil) }"
+def fn_otp_twofactor_totp2fa_MustHaveTOTPCodeValues : String := "func(v authboss.Validator) TOTPCodeValuer { if u, ok := v.(TOTPCodeValuer); ok { return u } panic(fmt.Sprintf(\"bodyreader returned a type that could not be upgraded to TOTPCodeValuer: %T\", v)) }"
+def fn_otp_twofactor_totp2fa_TOTP_GetConfirm : String := "func(w http.ResponseWriter, r *http.Request) error { totpSecret, ok := authboss.GetSession(r, SessionTOTPSecret) if !ok { return errors.New(\"request failed, no totp secret present in session\") } data := authboss.HTMLData{DataTOTPSecret: totpSecret} return t.Core.Responder.Respond(w, r, http.StatusOK, PageTOTPConfirm, data) }"
+def fn_otp_twofactor_totp2fa_TOTP_GetQRCode : String := "func(w http.ResponseWriter, r *http.Request) error { abUser, err := t.CurrentUser(r) if err != nil { return err } user := abUser.(User) totpSecret, ok := authboss.GetSession(r, SessionTOTPSecret) var key *otp.Key if !ok || len(totpSecret) == 0 { totpSecret = user.GetTOTPSecretKey() } if len(totpSecret) == 0 { return errors.New(\"no totp secret found\") } key, err = otp.NewKeyFromURL( fmt.Sprintf(otpKeyFormat, url.PathEscape(t.Authboss.Config.Modules.TOTP2FAIssuer), url.PathEscape(user.GetEmail()), url.QueryEscape(t.Authboss.Config.Modules.TOTP2FAIssuer), url.QueryEscape(totpSecret), )) if err != nil { return errors.Wrap(err, \"failed to reconstruct key from session key: %s\") } image, err := key.Image(200, 200) if err != nil { return errors.Wrap(err, \"failed to create totp qr code\") } buf := &bytes.Buffer{} if err = png.Encode(buf, image); err != nil { return errors.Wrap(err, \"failed to encode qr code to png\") } w.Header().Set(\"Cache-Control\", \"no-store\") w.Header().Set(\"Content-Type\", \"image/png\") w.WriteHeader(http.StatusOK) _, err = io.Copy(w, buf) return err }"
+def fn_otp_twofactor_totp2fa_TOTP_GetRemove : String := "func(w http.ResponseWriter, r *http.Request) error { return t.Authboss.Core.Responder.Respond(w, r, http.StatusOK, PageTOTPRemove, nil) }"
+def fn_otp_twofactor_totp2fa_TOTP_GetValidate : String := "func(w http.ResponseWriter, r *http.Request) error { return t.Authboss.Core.Responder.Respond(w, r, http.StatusOK, PageTOTPValidate, nil) }"
+def fn_recover_GenerateRecoverCreds : String := "func() (selector, verifier, token string, err error) { recoverTokenSize := 64 recoverTokenSplit := recoverTokenSize / 2 rawToken := make([]byte, recoverTokenSize) if _, err = io.ReadFull(rand.Reader, rawToken); err != nil { return \"\", \"\", \"\", err } selectorBytes := sha512.Sum512(rawToken[:recoverTokenSplit]) verifierBytes := sha512.Sum512(rawToken[recoverTokenSplit:]) return base64.StdEncoding.EncodeToString(selectorBytes[:]), base64.StdEncoding.EncodeToString(verifierBytes[:]), base64.URLEncoding.EncodeToString(rawToken), nil }"
+def fn_recover_Recover_EndGet : String := "func(w http.ResponseWriter, req *http.Request) error { validatable, err := r.Core.BodyReader.Read(PageRecoverMiddle, req) if err != nil { return err } values := authboss.MustHaveRecoverMiddleValues(validatable) token := values.GetToken() data := authboss.HTMLData{ DataRecoverToken: token, } return r.Config.Core.Responder.Respond(w, req, http.StatusOK, PageRecoverEnd, data) }"
+def fn_recover_Recover_StartGet : String := "func(w http.ResponseWriter, req *http.Request) error { return r.Config.Core.Responder.Respond(w, req, http.StatusOK, PageRecoverStart, nil) }"
+def fn_recover_Recover_mailURL : String := "func(token string) string { query := url.Values{FormValueToken: []string{token}} if len(r.Config.Mail.RootURL) != 0 { return fmt.Sprintf(\"%s?%s\", r.Config.Mail.RootURL+\"/recover/end\", query.Encode()) } p := path.Join(r.Config.Paths.Mount, \"recover/end\") return fmt.Sprintf(\"%s%s?%s\", r.Config.Paths.RootURL, p, query.Encode()) }"
+def fn_recover_init : String := "func() { m := &Recover{} authboss.RegisterModule(\"recover\", m) }"
+def fn_register_Register_Get : String := "func(w http.ResponseWriter, req *http.Request) error { return r.Config.Core.Responder.Respond(w, req, http.StatusOK, PageRegister, nil) }"
+def fn_register_init : String := "func() { authboss.RegisterModule(\"register\", &Register{}) }"
+def fn_remember_init : String := "func() { authboss.RegisterModule(\"remember\", &Remember{}) }"
+def funcNames : List String := [
+  "auth.Auth.Init",
+  "auth.Auth.LoginGet",
+  "auth.Auth.LoginPost",
+  "auth.init",
+  "authboss.Authboss.CurrentUser",
+  "authboss.Authboss.CurrentUserID",
+  "authboss.Authboss.CurrentUserIDP",
+  "authboss.Authboss.CurrentUserP",
+  "authboss.Authboss.Email",
+  "authboss.Authboss.Init",
+  "authboss.Authboss.IsLoaded",
+  "authboss.Authboss.LoadClientState",
+  "authboss.Authboss.LoadClientStateMiddleware",
+  "authboss.Authboss.LoadCurrentUser",
+  "authboss.Authboss.LoadCurrentUserID",
+  "authboss.Authboss.LoadCurrentUserIDP",
+  "authboss.Authboss.LoadCurrentUserP",
+  "authboss.Authboss.LoadedModules",
+  "authboss.Authboss.Localizef",
+  "authboss.Authboss.Logger",
+  "authboss.Authboss.NewResponse",
+  "authboss.Authboss.RequestLogger",
+  "authboss.Authboss.UpdatePassword",
+  "authboss.Authboss.VerifyPassword",
+  "authboss.Authboss.currentUser",
+  "authboss.Authboss.loadModule",
+  "authboss.CanBeRecoverableUserWithSecondaryEmails",
+  "authboss.ClientStateResponseWriter.Header",
+  "authboss.ClientStateResponseWriter.Hijack",
+  "authboss.ClientStateResponseWriter.UnderlyingResponseWriter",
+  "authboss.ClientStateResponseWriter.Unwrap",
+  "authboss.ClientStateResponseWriter.Write",
+  "authboss.ClientStateResponseWriter.WriteHeader",
+  "authboss.ClientStateResponseWriter.putClientState",
+  "authboss.Config.Defaults",
+  "authboss.DelAllSession",
+  "authboss.DelCookie",
+  "authboss.DelKnownCookie",
+  "authboss.DelKnownSession",
+  "authboss.DelSession",
+  "authboss.EnsureCanConfirm",
+  "authboss.EnsureCanCreate",
+  "authboss.EnsureCanOAuth2",
+  "authboss.EnsureCanRecover",
+  "authboss.EnsureCanRemember",
+  "authboss.ErrorList.Error",
+  "authboss.ErrorList.Map",
+  "authboss.ErrorMap",
+  "authboss.Event.String",
+  "authboss.Events.After",
+  "authboss.Events.Before",
+  "authboss.Events.FireAfter",
+  "authboss.Events.FireBefore",
+  "authboss.Events.call",
+  "authboss.FlashError",
+  "authboss.FlashSuccess",
+  "authboss.FmtLogger.Errorf",
+  "authboss.FmtLogger.Infof",
+  "authboss.GetCookie",
+  "authboss.GetSession",
+  "authboss.HTMLData.Merge",
+  "authboss.HTMLData.MergeKV",
+  "authboss.IsFullyAuthed",
+  "authboss.IsTwoFactored",
+  "authboss.MakeOAuth2PID",
+  "authboss.MergeDataInRequest",
+  "authboss.Middleware",
+  "authboss.Middleware2",
+  "authboss.ModuleListMiddleware",
+  "authboss.MountedMiddleware",
+  "authboss.MountedMiddleware2",
+  "authboss.MustBeAuthable",
+  "authboss.MustBeConfirmable",
+  "authboss.MustBeLockable",
+  "authboss.MustBeOAuthable",
+  "authboss.MustBeRecoverable",
+  "authboss.MustClientStateResponseWriter",
+  "authboss.MustHaveConfirmValues",
+  "authboss.MustHaveRecoverEndValues",
+  "authboss.MustHaveRecoverMiddleValues",
+  "authboss.MustHaveRecoverStartValues",
+  "authboss.MustHaveUserValues",
+  "authboss.New",
+  "authboss.NewBCryptHasher",
+  "authboss.NewEvents",
+  "authboss.NewHTMLData",
+  "authboss.NewSha512TokenGenerator",
+  "authboss.ParseOAuth2PID",
+  "authboss.ParseOAuth2PIDP",
+  "authboss.PutCookie",
+  "authboss.PutSession",
+  "authboss.RegisterModule",
+  "authboss.RegisteredModules",
+  "authboss.Sha512TokenGenerator.GenerateToken",
+  "authboss.Sha512TokenGenerator.ParseToken",
+  "authboss.Sha512TokenGenerator.TokenSize",
+  "authboss.VerifyPassword",
+  "authboss._",
+  "authboss.bcryptHasher.CompareHashAndPassword",
+  "authboss.bcryptHasher.GenerateHash",
+  "authboss.contextKey.String",
+  "authboss.delAllState",
+  "authboss.delState",
+  "authboss.getState",
+  "authboss.hasBit",
+  "authboss.putState",
+  "authboss.setState",
+  "confirm.Confirm.Get",
+  "confirm.Confirm.Init",
+  "confirm.Confirm.PreventAuth",
+  "confirm.Confirm.SendConfirmEmail",
+  "confirm.Confirm.StartConfirmation",
+  "confirm.Confirm.StartConfirmationWeb",
+  "confirm.Confirm.invalidToken",
+  "confirm.Confirm.mailURL",
+  "confirm.GenerateConfirmCreds",
+  "confirm.Middleware",
+  "confirm.init",
+  "defaults.ConfirmValues.GetToken",
+  "defaults.ErrorHandler.Wrap",
+  "defaults.FieldError.Err",
+  "defaults.FieldError.Error",
+  "defaults.FieldError.Name",
+  "defaults.HTTPBodyReader.Read",
+  "defaults.HTTPFormValidator.Validate",
+  "defaults.JSONRenderer.Load",
+  "defaults.JSONRenderer.Render",
+  "defaults.LogMailer.Send",
+  "defaults.Logger.Error",
+  "defaults.Logger.Info",
+  "defaults.NewErrorHandler",
+  "defaults.NewFieldError",
+  "defaults.NewHTTPBodyReader",
+  "defaults.NewLogMailer",
+  "defaults.NewLogger",
+  "defaults.NewRedirector",
+  "defaults.NewResponder",
+  "defaults.NewRouter",
+  "defaults.NewSMTPMailer",
+  "defaults.RecoverEndValues.GetPassword",
+  "defaults.RecoverEndValues.GetToken",
+  "defaults.RecoverMiddleValues.GetToken",
+  "defaults.RecoverStartValues.GetPID",
+  "defaults.Redirector.Redirect",
+  "defaults.Redirector.redirectAPI",
+  "defaults.Redirector.redirectNonAPI",
+  "defaults.Responder.Respond",
+  "defaults.Router.Delete",
+  "defaults.Router.Get",
+  "defaults.Router.Post",
+  "defaults.Router.ServeHTTP",
+  "defaults.Rules.Errors",
+  "defaults.Rules.IsValid",
+  "defaults.Rules.Rules",
+  "defaults.Rules.charErr",
+  "defaults.Rules.lengthErr",
+  "defaults.Rules.lowerErr",
+  "defaults.Rules.numericErr",
+  "defaults.Rules.symbolErr",
+  "defaults.Rules.upperErr",
+  "defaults.SMSTwoFA.GetCode",
+  "defaults.SMSTwoFA.GetPhoneNumber",
+  "defaults.SMSTwoFA.GetRecoveryCode",
+  "defaults.SMTPMailer.Send",
+  "defaults.SMTPMailer.boundary",
+  "defaults.SetCore",
+  "defaults.TwoFA.GetCode",
+  "defaults.TwoFA.GetRecoveryCode",
+  "defaults.URLValuesToMap",
+  "defaults.UserValues.GetPID",
+  "defaults.UserValues.GetPassword",
+  "defaults.UserValues.GetShouldRemember",
+  "defaults.UserValues.GetValues",
+  "defaults.errorHandler.ServeHTTP",
+  "defaults.isAPIRequest",
+  "defaults.isSameSiteRedirect",
+  "defaults.namedAddress",
+  "defaults.namedAddresses",
+  "defaults.tallyCharacters",
+  "expire.Middleware",
+  "expire.RefreshExpiry",
+  "expire.Setup",
+  "expire.TimeToExpiry",
+  "expire.expireMiddleware.ServeHTTP",
+  "expire.refreshExpiry",
+  "expire.stateHider.Get",
+  "expire.timeToExpiry",
+  "lock.IsLocked",
+  "lock.Lock.AfterAuthFail",
+  "lock.Lock.AfterAuthSuccess",
+  "lock.Lock.BeforeAuth",
+  "lock.Lock.Init",
+  "lock.Lock.Lock",
+  "lock.Lock.Unlock",
+  "lock.Lock.updateLockedState",
+  "lock.Middleware",
+  "lock.init",
+  "logout.Logout.Init",
+  "logout.Logout.Logout",
+  "logout.init",
+  "oauth2.FacebookUserDetails",
+  "oauth2.GoogleUserDetails",
+  "oauth2.OAuth2.End",
+  "oauth2.OAuth2.Init",
+  "oauth2.OAuth2.Start",
+  "oauth2.RMTrue.GetShouldRemember",
+  "oauth2.init",
+  "oauth2.isSameSiteRedirect",
+  "otp.MustBeOTPable",
+  "otp.OTP.AddGet",
+  "otp.OTP.AddPost",
+  "otp.OTP.ClearGet",
+  "otp.OTP.ClearPost",
+  "otp.OTP.Init",
+  "otp.OTP.LoginGet",
+  "otp.OTP.LoginPost",
+  "otp.OTP.showOTPCount",
+  "otp.generateOTP",
+  "otp.init",
+  "otp.joinOTPs",
+  "otp.splitOTPs",
+  "otp_twofactor.BCryptRecoveryCodes",
+  "otp_twofactor.DecodeRecoveryCodes",
+  "otp_twofactor.EmailVerify.End",
+  "otp_twofactor.EmailVerify.GetStart",
+  "otp_twofactor.EmailVerify.PostStart",
+  "otp_twofactor.EmailVerify.SendVerifyEmail",
+  "otp_twofactor.EmailVerify.Wrap",
+  "otp_twofactor.EmailVerify.mailURL",
+  "otp_twofactor.EncodeRecoveryCodes",
+  "otp_twofactor.GenerateRecoveryCodes",
+  "otp_twofactor.GenerateToken",
+  "otp_twofactor.MustHaveEmailVerifyTokenValues",
+  "otp_twofactor.Recovery.GetRegen",
+  "otp_twofactor.Recovery.PostRegen",
+  "otp_twofactor.Recovery.Setup",
+  "otp_twofactor.SetupEmailVerify",
+  "otp_twofactor.UseRecoveryCode",
+  "otp_twofactor_sms2fa.MustHaveSMSPhoneNumberValue",
+  "otp_twofactor_sms2fa.MustHaveSMSValues",
+  "otp_twofactor_sms2fa.SMS.GetSetup",
+  "otp_twofactor_sms2fa.SMS.HijackAuth",
+  "otp_twofactor_sms2fa.SMS.PostSetup",
+  "otp_twofactor_sms2fa.SMS.SendCodeToUser",
+  "otp_twofactor_sms2fa.SMS.Setup",
+  "otp_twofactor_sms2fa.SMSValidator.Get",
+  "otp_twofactor_sms2fa.SMSValidator.Post",
+  "otp_twofactor_sms2fa.SMSValidator.sendCode",
+  "otp_twofactor_sms2fa.SMSValidator.validateCode",
+  "otp_twofactor_sms2fa.generateRandomCode",
+  "otp_twofactor_totp2fa.MustHaveTOTPCodeValues",
+  "otp_twofactor_totp2fa.TOTP.GetConfirm",
+  "otp_twofactor_totp2fa.TOTP.GetQRCode",
+  "otp_twofactor_totp2fa.TOTP.GetRemove",
+  "otp_twofactor_totp2fa.TOTP.GetSetup",
+  "otp_twofactor_totp2fa.TOTP.GetValidate",
+  "otp_twofactor_totp2fa.TOTP.HijackAuth",
+  "otp_twofactor_totp2fa.TOTP.PostConfirm",
+  "otp_twofactor_totp2fa.TOTP.PostRemove",
+  "otp_twofactor_totp2fa.TOTP.PostSetup",
+  "otp_twofactor_totp2fa.TOTP.PostValidate",
+  "otp_twofactor_totp2fa.TOTP.Setup",
+  "otp_twofactor_totp2fa.TOTP.validate",
+  "recover.GenerateRecoverCreds",
+  "recover.Recover.EndGet",
+  "recover.Recover.EndPost",
+  "recover.Recover.Init",
+  "recover.Recover.SendRecoverEmail",
+  "recover.Recover.StartGet",
+  "recover.Recover.StartPost",
+  "recover.Recover.invalidToken",
+  "recover.Recover.mailURL",
+  "recover.init",
+  "register.Register.Get",
+  "register.Register.Init",
+  "register.Register.Post",
+  "register.hasString",
+  "register.init",
+  "remember.Authenticate",
+  "remember.GenerateToken",
+  "remember.Middleware",
+  "remember.Remember.AfterPasswordReset",
+  "remember.Remember.Init",
+  "remember.Remember.RememberAfterAuth",
+  "remember.halfAuthState.Get",
+  "remember.init"
 ]
 
 end Expected
